@@ -9,6 +9,7 @@ import (
 	"encoding/json"
 	"errors"
 	"fmt"
+	"io"
 	"net"
 	"net/url"
 	"os"
@@ -224,6 +225,11 @@ func checkEval(ctx *core.Ctx, c evalCase) {
 	nontrivial := strings.Contains(c.Fn+c.FnEx, "I,")
 	ctx.Case("eval:"+c.Fn+"|"+c.FnEx+"|"+c.Req.URL+"|"+c.Req.HostArg+"|"+strings.Join(c.Env.wire(), " "), nontrivial)
 	ctx.Count("eval/answer/" + answerKind(impl))
+	for _, w := range []string{c.Fn, c.FnEx} {
+		if f, _, ok := strings.Cut(w, ":"); ok {
+			ctx.Count("eval/entry-form/" + f)
+		}
+	}
 	if spec != "na" {
 		ctx.Count("eval/in-spec-domain")
 	} else {
@@ -592,8 +598,25 @@ type poolResult struct {
 }
 
 func childMain() {
+	raw, err := io.ReadAll(os.Stdin)
+	var k struct {
+		Kind string `json:"kind"`
+	}
+	if err == nil {
+		err = json.Unmarshal(raw, &k)
+	}
+	if err == nil && k.Kind == "poolh" {
+		var c hammerCase
+		if err = json.Unmarshal(raw, &c); err == nil {
+			json.NewEncoder(os.Stdout).Encode(runHammer(c))
+			os.Exit(0)
+		}
+	}
 	var c poolCase
-	if err := json.NewDecoder(os.Stdin).Decode(&c); err != nil {
+	if err == nil {
+		err = json.Unmarshal(raw, &c)
+	}
+	if err != nil {
 		fmt.Fprintln(os.Stderr, "c14 child: bad input:", err)
 		os.Exit(3)
 	}
@@ -846,7 +869,56 @@ func genEvalCase(r *core.Rand) evalCase {
 	case 6:
 		fn = entry{k: 'x'}
 	}
+	// how the entry points are declared: function declarations half of the time, else any form (property of the
+	// global object, global lexical binding, or local to a block / function / eval = no entry point at all)
+	if r.Chance(50) {
+		pick := func() string {
+			switch {
+			case r.Chance(45):
+				return core.Pick(r, formsWith("L"))
+			case r.Chance(80):
+				return core.Pick(r, formsWith("P"))
+			}
+			return core.Pick(r, formsWith("N"))
+		}
+		fn.form, fnEx.form = pick(), pick()
+		fn.xv, fnEx.xv = r.Intn(len(notFunctionValues)), r.Intn(len(notFunctionValues))
+	}
 	return evalCase{Kind: "eval", Fn: fn.wire(), FnEx: fnEx.wire(), Script: scriptJS(fn, fnEx), Req: q, Env: env, Pool: r.Chance(30)}
+}
+
+// entryMatrix: both names in every combination of declaration forms and of {absent, not a function, function},
+// with small trees: what loads, what is ambiguous, what is missing.
+func entryMatrix(ctx *core.Ctx) {
+	kinds := []byte{'f', 'x', '-'}
+	n := 0
+	for _, f1 := range declForms {
+		for _, f2 := range declForms {
+			r := ctx.Rng.Sub()
+			q, eff := genReq(r)
+			env := genEnv(r, eff)
+			h := hint{host: eff, url: q.URL, env: env}
+			// function × function for every pair; the other kinds by rotation (every form meets every kind)
+			combos := [][2]byte{{'f', 'f'}, {kinds[n%3], kinds[(n/3+1)%3]}}
+			n++
+			for _, kk := range combos {
+				mk := func(k byte, form string) entry {
+					e := entry{k: k, form: form, xv: r.Intn(len(notFunctionValues))}
+					if k == 'f' {
+						e.t = genTree(r, h, r.Range(0, 1))
+					}
+					if k == '-' {
+						e.form = ""
+					}
+					return e
+				}
+				fn, fnEx := mk(kk[0], f1.name), mk(kk[1], f2.name)
+				c := evalCase{Kind: "eval", Fn: fn.wire(), FnEx: fnEx.wire(), Script: scriptJS(fn, fnEx), Req: q, Env: env, Pool: r.Chance(50)}
+				ctx.Count("entry-matrix/" + string(kk[0]) + string(f1.binding) + "+" + string(kk[1]) + string(f2.binding))
+				checkEval(ctx, c)
+			}
+		}
+	}
 }
 
 func genHelperCase(r *core.Rand, name string) helperCase {
@@ -911,7 +983,11 @@ func Run(ctx *core.Ctx) {
 		"(c) result-list strings from the grammar and arbitrary ASCII through Proxies.All/First/URL; (d) 1-64 concurrent callers on the pool vs one-at-a-time answers, half of the scripts decorated; " +
 		"(e) decorated scripts: the trees wrapped in sloppy-mode ES5 forms (assignments to undeclared names, loops over an undeclared counter, per-VM counters and load-time constants, leaves returning through a global, " +
 		"the script's own versions of predefined helpers; spelt with `with`, duplicate parameter names, arguments.callee, arguments aliasing, this = global object, legacy octal literals, eval-introduced vars), 1-4 requests each " +
-		"evaluated one at a time on a stand-alone resolver (= the model's sequential answers) and through a pool (each answer = a single resolver's after some sub-sequence of the earlier requests; pool construction succeeds iff the resolver's does). " +
+		"evaluated one at a time on a stand-alone resolver (= the model's sequential answers) and through a pool (each answer = a single resolver's after some sub-sequence of the earlier requests; pool construction succeeds iff the resolver's does); " +
+		"(f) entry points in every declaration form (function declaration, var / assignment / this. / defineProperty / inside a block, an IIFE or eval = property of the global object; let / const with function expression or arrow function = global lexical binding; " +
+		"block-scoped let / const, function-local, eval-local = no global binding), both names in every pair of forms and of {function, not a function, absent}; " +
+		"(g) pool hammer in a child process: stateless scripts that call all 15 helpers on every evaluation with arguments built afresh from the request (and clock-independent weekdayRange / dateRange / timeRange calls), " +
+		"16-64 callers released together on a fresh pool per round, every request new, nothing evaluated before; every answer = the model's answer to the request asked alone. " +
 		"Non-trivial: a tree with at least one condition, a helper call with at least one argument, a result list with a separator or space, a pool run with more than one caller; distinct = distinct canonical inputs")
 	ctx.Assume("the JavaScript engine (goja) and Go's net/netip, net.SplitHostPort, strings.TrimSpace are modelled, not verified")
 	for _, c := range core.LoadCorpus(ctx.Root, "C14") {
@@ -928,6 +1004,7 @@ func Run(ctx *core.Ctx) {
 			ctx.Sample(c)
 		}
 	}
+	entryMatrix(ctx)
 	nDeco := ctx.N(1500, 12000)
 	for i := 0; i < nDeco; i++ {
 		r := ctx.Rng.Sub()
@@ -991,6 +1068,18 @@ func Run(ctx *core.Ctx) {
 			ctx.Sample(c)
 		}
 	}
+	// helper-heavy scripts with arguments built afresh per call, cold pools, callers released together
+	hammerCallers := []int{16, 32, 64, 24, 48, 40}
+	nHammer := ctx.N(6, 30)
+	for i := 0; i < nHammer; i++ {
+		r := ctx.Rng.Sub()
+		callers := hammerCallers[i%len(hammerCallers)]
+		if i >= len(hammerCallers) {
+			callers = r.Range(16, 64)
+		}
+		c := genHammerCase(r, callers, ctx.N(3, 4), ctx.N(3, 5), 2)
+		checkHammer(ctx, c)
+	}
 }
 
 func Replay(ctx *core.Ctx, raw json.RawMessage) {
@@ -1019,6 +1108,10 @@ func Replay(ctx *core.Ctx, raw json.RawMessage) {
 		var c decoCase
 		json.Unmarshal(raw, &c)
 		checkDeco(ctx, c)
+	case "poolh":
+		var c hammerCase
+		json.Unmarshal(raw, &c)
+		checkHammer(ctx, c)
 	default:
 		core.Fatalf("C14: unknown case kind %q", k.Kind)
 	}
